@@ -320,6 +320,11 @@ impl<'a> Exec<'a> {
             fold(&mut self.transcript, ih.0[0] as u64 | (st.complete as u64) << 8 | (st.incomplete as u64) << 24);
             let (s, l) = self.model.counts(v6, &ih.0);
             let in_must = must.contains(&ih.0);
+            // entries beyond max_scrape_torrents are unconstrained; requested torrents must carry true counts
+            let requested = requested.contains(&ih.0);
+            if requested && !in_must && st.complete == s && st.incomplete == l {
+                continue;
+            }
             if !(in_must && s + l > 0) && (st.complete != 0 || st.incomplete != 0) {
                 self.fail(props, check, sig, format!("scrape lists t={} with non-zero counts {}/{} although it {}", ih.0[0], st.complete, st.incomplete, if in_must { "has no stored peers" } else { "was not among the first max_scrape_torrents requested" }));
                 return;
